@@ -256,6 +256,63 @@ Definition slice_map_sched (m : mach) (fires : list bool) : option (list drow * 
 
 End Paging.
 
+(* ---- the caller's *Query handle ---------------------------------------------------------------
+   Everything above takes the query's configuration as constants of one iteration.  In the Go code
+   they are fields of the caller's *Query, which the caller may go on using after Iter() returned:
+   re-bind it (Query.Bind), change options, start further iterators from it, Release it.  The
+   iterator must not notice: Conn.executeQuery builds the query of the following page as a *copy*
+   taken when the page arrived (`*newQry = *qry`, conn.go:1451-1454) and nextIter.fetch executes
+   that copy (session.go:1716-1722), never the handle.  Here: an iterator [itr] stores the
+   configuration it was started with and every later step of it reads that stored copy; the
+   handle is a separate component that [HSet] overwrites. *)
+Section Handle.
+Variables R M Q : Type.
+
+(* what Query.Iter() reads from the *Query *)
+Record qconf := mkConf { f_q : Q; f_auto : bool; f_posf : nat -> Z; f_mm : meta_mode M; f_nr : nat; f_ps : list Z }.
+
+Definition c_open (c : qconf) (srv : list (reply R M)) : mach R M Q :=
+  open (f_q c) (f_auto c) (f_posf c) (f_mm c) (f_nr c) (f_ps c) srv.
+Definition c_step (c : qconf) (m : mach R M Q) (l : label) := step (f_q c) (f_auto c) (f_posf c) (f_mm c) (f_nr c) m l.
+Definition c_sched (c : qconf) (m : mach R M Q) (ls : list label) := sched (f_q c) (f_auto c) (f_posf c) (f_mm c) (f_nr c) m ls.
+
+Record itr := mkItr { it_conf : qconf; it_mach : mach R M Q; it_outs : list (option (drow R M)) }.
+
+(* the caller's program on one handle: overwrite the handle (any combination of Bind / option
+   setters / Release+reuse), start an iterator from it against a server script, or let iterator
+   number j do one step (a consumer call or its prefetch goroutine) *)
+Inductive hop := HSet (c : qconf) | HIter (srv : list (reply R M)) | HStep (j : nat) (l : label).
+
+Fixpoint upd_nth {A} (j : nat) (f : A -> A) (l : list A) : list A :=
+  match l, j with
+  | [], _ => []
+  | x :: t, O => f x :: t
+  | x :: t, S j' => x :: upd_nth j' f t
+  end.
+
+Definition itr_step (l : label) (it : itr) : itr :=
+  let '(o, m') := c_step (it_conf it) (it_mach it) l in mkItr (it_conf it) m' (it_outs it ++ o).
+
+Definition hstep (st : qconf * list itr) (o : hop) : qconf * list itr :=
+  let '(h, its) := st in
+  match o with
+  | HSet c => (c, its)
+  | HIter srv => (h, its ++ [mkItr h (c_open h srv) []])
+  | HStep j l => (h, upd_nth j (itr_step l) its)
+  end.
+
+Definition hrun (st : qconf * list itr) (ops : list hop) : qconf * list itr := fold_left hstep ops st.
+
+(* the steps of a program that are addressed to iterator j *)
+Fixpoint labels_for (j : nat) (ops : list hop) : list label :=
+  match ops with
+  | [] => []
+  | HStep i l :: t => if (i =? j)%nat then l :: labels_for j t else labels_for j t
+  | _ :: t => labels_for j t
+  end.
+
+End Handle.
+
 (* int((1 - prefetch) * float64(numRows)) for prefetch = num/den (den > 0): exact in float64 for the
    dyadic thresholds and page sizes the harness uses; int() truncates towards zero *)
 Definition prefetch_pos (num den : Z) (n : nat) : Z := Z.quot ((den - num) * Z.of_nat n) den.
